@@ -118,7 +118,19 @@ class Engine:
     def build(self):
         self.binary = C.build_harness("core", self.features)
 
+    def adapt(self, case):
+        """`impl Termination for Unimock` exists only with the std feature (src/lib.rs, cfg(feature = "std")):
+        on a no_std build report() is not an operation, so a report event is run as the drop it would
+        otherwise contain (same instance, same position)."""
+        if self.bc == "cfg_std" or not any(e["base"][0] == "report" for e in case["events"]):
+            return case
+        c = dict(case)
+        c["events"] = [dict(e, base=("drop",) + tuple(e["base"][1:])) if e["base"][0] == "report" else e
+                       for e in case["events"]]
+        return c
+
     def both(self, cases):
+        cases = [self.adapt(c) for c in cases]
         lines = [K.harness_line(c, i) for i, c in enumerate(cases)]
         impl = C.run_harness(self.binary, lines)
         model = C.coq_eval_cases(K.COQ_PRELUDE, [K.coq_case(c, self.bc) for c in cases])
